@@ -1,7 +1,7 @@
 From SL Require Import Tac.
 From Coq Require Import ZArith NArith List Bool Lia.
 From RecordUpdate Require Import RecordUpdate.
-From SL Require Import LoopSem LoopProg GLibSem GLibFrag drv.Drv_loop proofs.C20Proofs.
+From SL Require Import PyInt LoopSem LoopProg ScreenSem GLibSem GLibFrag GLibApp drv.Drv_loop proofs.C20Proofs.
 Import ListNotations.
 
 Section Sim.
@@ -21,6 +21,13 @@ Section Sim.
     | H : match ?x with _ => _ end = Some _ |- _ => destruct x eqn:?
     end.
 
+  Lemma do_get_inr (s : lstate U) x sp r : do_get s = inr x -> ext s = sp :: r ->
+    x = (let '(sg, s1) := new_signal (s <| ext := r |>) sp in do_enqueue (emit (EExt (sg_id sg)) s1) sg).
+  Proof.
+    unfold do_get. destruct (q_pop (get_q s (active s))) as [[[[? ?] ?] ?]|]; [discriminate|].
+    intros H E. rewrite E in H. inversion H. reflexivity.
+  Qed.
+
   Lemma fexec_is_exec : forall f c s o s', fexec code f c s = Some (o, s') -> exec code f c s = (o, s').
   Proof.
     induction f as [|f IH]; intros c s o s' H; [inversion H; reflexivity|].
@@ -28,6 +35,10 @@ Section Sim.
     all: repeat (fstep IH).
     all: try reflexivity.
     all: try (apply IH; assumption).
+    all: try match goal with
+             | Hg : do_get ?s = inr ?x, He : ext ?s = ?sp :: ?r, Hn : new_signal _ ?sp = (?sg, ?s1) |- _ =>
+               rewrite (do_get_inr _ _ _ _ Hg He), Hn; apply IH; assumption
+             end.
     all: match goal with H : run_loop _ && enqueue_ok _ _ = true |- _ =>
            apply andb_true_iff in H; destruct H as [_ H]; unfold enqueue_ok in H;
            apply andb_true_iff in H; destruct H as [H _]; apply andb_true_iff in H; destruct H as [H _];
@@ -76,7 +87,7 @@ Section Sim.
   Proof. revert q; induction l as [|a l IH]; intros [|q]; cbn; auto. Qed.
 
   Definition is_obs (e : event) : bool :=
-    match e with EHandler _ _ _ | EMark _ | ERunReturn => true | _ => false end.
+    match e with EHandler _ _ _ | EMark _ | EUser _ _ _ | ERunReturn => true | _ => false end.
   Definition obs (t : list event) : list event := filter is_obs t.
 
   Definition live_srcs (gl : glevel) : list gsource := filter gs_live (gl_sources gl).
@@ -102,8 +113,7 @@ Section Sim.
     r_qcb : quit_cb s = gquit_cb g;
     r_sig : next_sig s = gnext_sig g;
     r_ust : ust s = gust g;
-    r_ext : ext s = [];
-    r_gext : gext g = [];
+    r_ext : ext s = gext g;
     r_lvl : forall q, q < length (qstore s) -> lvl_rel (gnext_seq g) (get_q s q) (get_l g q);
     r_obs : obs (trace s) = obs (gtrace g) }.
 
@@ -303,6 +313,16 @@ Section Sim.
     Step s1 g1 s1' g1' -> Step s2 g2 s2' g2'.
   Proof.
     intros A B C A' B' C'. unfold Step, flags_kept, incall_kept, get_l. rewrite A, B, C, A', B', C'. tauto.
+  Qed.
+
+  Lemma Step_same s g s' g' :
+    levels s' = levels s -> run_loop s' = run_loop s -> length (gstore g') = length (gstore g) ->
+    (forall q, gl_running (get_l g' q) = gl_running (get_l g q)) ->
+    (forall q, incall_srcs (get_l g' q) = incall_srcs (get_l g q)) ->
+    Step s g s' g'.
+  Proof.
+    intros A B C D E. split; [lia|]. split; [intros q _; apply E|]. left. split; [exact A|]. split; [exact B|].
+    intros q _ _. apply D.
   Qed.
 
   Definition Post (o : outcome) (s : lstate U) (g : gstate U) (s' : lstate U) (g' : gstate U) : Prop :=
@@ -620,14 +640,17 @@ Section Sim.
 
   (* ------------------------------------------------------------ one dispatch *)
   Lemma do_get_cases s g : Rel s g ->
-    (eq_entries (get_q s (active s)) = [] /\ do_get s = inl None) \/
+    (eq_entries (get_q s (active s)) = [] /\ ext s = [] /\ do_get s = inl None) \/
+    (eq_entries (get_q s (active s)) = [] /\ exists sp r x, ext s = sp :: r /\ do_get s = inr x) \/
     (exists p c sg, eq_entries (get_q s (active s)) = [(p, c, sg)] /\
        do_get s = inl (Some (sg, set_q s (active s) (get_q s (active s) <| eq_entries := [] |>)))).
   Proof.
     intros R. pose proof (active_valid _ _ R) as Ha. destruct (r_lvl _ _ R _ Ha) as (_ & _ & _ & _ & _ & Hlen).
     unfold do_get, q_pop. destruct (eq_entries (get_q s (active s))) as [|[[p c] sg] [|e r]] eqn:E; cbn in Hlen; try lia.
-    - left. split; [reflexivity|]. rewrite (r_ext _ _ R). reflexivity.
-    - right. exists p, c, sg. split; [reflexivity|]. cbn. rewrite Nat.eqb_refl. reflexivity.
+    - destruct (ext s) as [|sp r] eqn:Ex.
+      + left. auto.
+      + right. left. split; [reflexivity|]. destruct (new_signal (s <| ext := r |>) sp) as [sg s1] eqn:En. eauto.
+    - right. right. exists p, c, sg. split; [reflexivity|]. cbn. rewrite Nat.eqb_refl. reflexivity.
   Qed.
 
   Lemma live_single l x : filter gs_live l = [x] -> NoDup (map gs_seq l) ->
@@ -873,6 +896,24 @@ Section Sim.
           apply flag_dispatched; exact Hl.
   Qed.
 
+  Lemma Rel_ext_set s g x : Rel s g -> Rel (s <| ext := x |>) (g <| gext := x |>).
+  Proof. intros R. destruct R. constructor; try assumption. reflexivity. Qed.
+  Lemma Rel_ext_add s g sp : Rel s g -> Rel (s <| ext := ext s ++ [sp] |>) (g <| gext := gext g ++ [sp] |>).
+  Proof. intros R. destruct R. constructor; try assumption. cbn. congruence. Qed.
+
+  Lemma giter_ext m (g : gstate U) l sp r :
+    l < length (gstore g) -> gl_pending (get_l g l) = [] -> live_srcs (get_l g l) = [] -> gext g = sp :: r ->
+    gexec false code (S m) (GIter l true) g =
+      (let '(sg, s1) := gnew_signal (g <| gext := r |>) sp in
+       let s2 := gemit (EExt (sg_id sg)) s1 in
+       (ONormal, match g_enqueue s2 sg with Some s3 => s3 | None => s2 end)).
+  Proof.
+    intros Hl Hp Hlive Hx. cbn [gexec]. rewrite (batch_of_nil _ Hlive).
+    assert (Hid : upd_l g l (fun v => v <| gl_pending := [] |>) = g).
+    { apply upd_l_id; [exact Hl|]. destruct (get_l g l); cbn in *. rewrite Hp. reflexivity. }
+    rewrite Hid, Hx. reflexivity.
+  Qed.
+
   Lemma fexec_sig_outcome : forall f sg idx s o s', fexec code f (CProcessSignal sg idx) s = Some (o, s') ->
     o = ONormal \/ o = OThrow XExit \/ o = OBlocked \/ o = OFuel.
   Proof.
@@ -914,14 +955,50 @@ Section Sim.
     assert (Ha : active s = l) by (rewrite (r_active _ _ R); exact Htop).
     pose proof (active_valid _ _ R) as Hav. rewrite Ha in Hav.
     destruct (r_lvl _ _ R l Hav) as (A & B & C & D & E & F).
-    destruct (do_get_cases _ _ R) as [[He Hg] | (p & c & sg & He & Hg)]; rewrite Hg in H; rewrite Ha in *.
-    - (* nothing pending: blocked for ever *)
+    destruct (do_get_cases _ _ R) as [(He & Hx0 & Hg) | [(He & sp & r & x & Hx0 & Hg) | (p & c & sg & He & Hg)]];
+      rewrite Hg in H; rewrite Ha in *.
+    - (* nothing pending, nothing to come: blocked for ever *)
       inversion H; subst o s'. rewrite He in E. cbn in E. symmetry in E. apply map_eq_nil in E.
       exists 2, (upd_l g l (fun v => v <| gl_pending := [] |>)). split.
       + cbn [gexec]. rewrite Hrun. rewrite (batch_of_nil _ E).
-        assert (Hx : gext (upd_l g l (fun v => v <| gl_pending := [] |>)) = []) by exact (r_gext _ _ R).
+        assert (Hx : gext (upd_l g l (fun v => v <| gl_pending := [] |>)) = []) by (rewrite <- Hx0; symmetry; exact (r_ext _ _ R)).
         rewrite Hx. reflexivity.
       + cbn. apply (r_obs _ _ R).
+    - (* idle: the next submission of another thread arrives *)
+      rewrite Hx0 in H. rewrite He in E. cbn in E. symmetry in E. apply map_eq_nil in E.
+      pose proof (new_signal_rel _ _ sp (Rel_ext_set _ _ r R)) as [Hfst R1].
+      destruct (new_signal (s <| ext := r |>) sp) as [sg s1] eqn:En.
+      destruct (gnew_signal (g <| gext := r |>) sp) as [sg' g1] eqn:Eg. cbn [fst snd] in *. subst sg'.
+      set (s2 := emit (EExt (sg_id sg)) s1) in *. set (g2 := gemit (EExt (sg_id sg)) g1).
+      destruct (enqueue_ok s2 sg) eqn:Eok; [|discriminate].
+      assert (R2 : Rel s2 g2) by (apply Rel_emit2; exact R1).
+      pose proof (enqueue_rel _ _ sg R2 Eok) as R3.
+      pose proof (target_valid _ _ sg R2) as Htv. rewrite (r_len _ _ R2) in Htv.
+      destruct (attach_frame g2 _ sg Htv) as (_ & F2 & F3 & F4).
+      set (g3 := attach g2 (target_queue s2 sg) sg) in *.
+      assert (Hfq2 : force_quit s2 = false) by apply (r_fq _ _ R2).
+      assert (Hst : gstore g2 = gstore g) by (unfold g2; unfold gnew_signal in Eg; inversion Eg; reflexivity).
+      assert (HL : levels (do_enqueue s2 sg) = levels s)
+        by (rewrite do_enqueue_eq by exact Hfq2; unfold s2; unfold new_signal in En; inversion En; reflexivity).
+      assert (HR : run_loop (do_enqueue s2 sg) = run_loop s)
+        by (rewrite do_enqueue_eq by exact Hfq2; unfold s2; unfold new_signal in En; inversion En; reflexivity).
+      assert (St : Step s g (do_enqueue s2 sg) g3).
+      { apply Step_same; [exact HL | exact HR | rewrite F2, Hst; reflexivity | |].
+        - intros q. rewrite F3. unfold get_l. rewrite Hst. reflexivity.
+        - intros q. rewrite F4. unfold get_l. rewrite Hst. reflexivity. }
+      assert (Pre3 : LoopPre (do_enqueue s2 sg) g3 l).
+      { split; [rewrite F2, Hst; exact Hl|]. split; intros Hr; [|congruence].
+        split; [rewrite HL; exact Htop|]. rewrite F3. unfold get_l. rewrite Hst. exact Hrun. }
+      destruct (IHl _ _ _ _ _ R3 Pre3 H Ho) as (f2 & g' & G2 & P2).
+      assert (Hlo : loop_out o <> OFuel) by (destruct o as [|[]| |]; cbn; congruence).
+      exists (S (S f2)), g'. split.
+      + rewrite gloop_step by exact Hrun.
+        rewrite (giter_ext f2 g l sp r Hl B E) by (rewrite <- Hx0; symmetry; exact (r_ext _ _ R)).
+        rewrite Eg. cbv zeta. fold g2. rewrite (g_enqueue_eq _ _ _ R2 Eok). fold g3.
+        eapply gle; [exact G2 | exact Hlo | lia].
+      + destruct o as [|[]| |]; cbn in *; try assumption; try contradiction.
+        destruct P2 as (Rf & Stf & Hrf). split; [exact Rf|]. split; [|exact Hrf].
+        eapply Step_trans; [eapply Rel_valid_g; exact R | exact St | exact Stf].
     - rewrite He in E. cbn in E.
       destruct (live_srcs (get_l g l)) as [|x [|x2 r]] eqn:El; try discriminate. inversion E as [Hsg]. clear E.
       destruct (live_single _ _ El C) as (l1 & l2 & Hs & Hl1 & Hl2 & Hlx).
@@ -1092,16 +1169,6 @@ Section Sim.
     qstore (snd (new_signal s sp)) = qstore s.
   Proof. repeat split; reflexivity. Qed.
 
-  Lemma Step_same s g s' g' :
-    levels s' = levels s -> run_loop s' = run_loop s -> length (gstore g') = length (gstore g) ->
-    (forall q, gl_running (get_l g' q) = gl_running (get_l g q)) ->
-    (forall q, incall_srcs (get_l g' q) = incall_srcs (get_l g q)) ->
-    Step s g s' g'.
-  Proof.
-    intros A B C D E. split; [lia|]. split; [intros q _; apply E|]. left. split; [exact A|]. split; [exact B|].
-    intros q _ _. apply D.
-  Qed.
-
   Lemma sim_api f : SMain f -> SApi (S f).
   Proof.
     intros IHm a s g o s' R H Ho. destruct a; cbn [fexec] in H; try discriminate.
@@ -1239,6 +1306,9 @@ Section Sim.
       inversion H; subst o s'. exists 1, (gemit (ESetQuitCb arg) (g <| gquit_cb := Some arg |>)).
       split; [reflexivity|]. split; [apply Rel_emit2; apply Rel_quitcb; exact R|].
       apply Step_same; reflexivity.
+    - (* AExtAdd *)
+      inversion H; subst o s'. exists 1, (g <| gext := gext g ++ [sp] |>).
+      split; [reflexivity|]. split; [apply Rel_ext_add; exact R|]. apply Step_same; reflexivity.
   Qed.
 
   (* ------------------------------------------------------------ all together *)
@@ -1379,6 +1449,26 @@ Qed.
 Lemma hseq_obs t : hseq t = filter is_hm (upto_quit (rev (obs t))).
 Proof. unfold hseq, obs. rewrite <- filter_rev'. apply hm_upto_obs. Qed.
 
+(* the user-visible sequence: handler invocations, marks and the events of the layers above the loop (EUser: screens
+   set up / refreshed / shown, prompts, input lines delivered to screens, screens closed, modal returns ...) *)
+Lemma vis_upto_obs l : filter is_vis (upto_quit l) = filter is_vis (upto_quit (filter is_obs l)).
+Proof.
+  induction l as [|e l IH]; [reflexivity|].
+  destruct e; cbn [filter is_obs upto_quit is_vis]; try exact IH; try (f_equal; exact IH); reflexivity.
+Qed.
+Lemma vseq_obs t : vseq t = filter is_vis (upto_quit (rev (obs t))).
+Proof. unfold vseq, obs. rewrite <- filter_rev'. apply vis_upto_obs. Qed.
+Lemma filter_filter_sub {A} (p q : A -> bool) l : (forall x, p x = true -> q x = true) -> filter p (filter q l) = filter p l.
+Proof.
+  intros Hs. induction l as [|x l IH]; [reflexivity|]. cbn. destruct (q x) eqn:Eq; cbn.
+  - destruct (p x); rewrite IH; reflexivity.
+  - destruct (p x) eqn:Ep; [rewrite (Hs x Ep) in Eq; discriminate | exact IH].
+Qed.
+Lemma hseq_vseq t : hseq t = filter is_hm (vseq t).
+Proof. unfold hseq, vseq. symmetry. apply filter_filter_sub. intros [] H; try discriminate; reflexivity. Qed.
+Lemma useq_vseq t : useq t = filter is_user (vseq t).
+Proof. unfold useq, vseq. symmetry. apply filter_filter_sub. intros [] H; try discriminate; reflexivity. Qed.
+
 (* for every handler code (any user state), every fuel and every list of top-level calls: if the run on the MainLoop
    model stays in the fragment, then the GLibEventLoop model, given enough fuel, ends every top-level call in the same
    way and shows the same handler/mark sequence up to the quit *)
@@ -1386,8 +1476,8 @@ Theorem agree_partial_gen {U} (code : nat -> signal -> nat -> prog U) fuel acts 
   in_fragment code fuel acts u = true ->
   exists fuel', forall fuel'', fuel' <= fuel'' ->
     fst (grun_session false code fuel'' acts (ginit_state u)) = fst (run_session code fuel acts (init_state u)) /\
-    hseq (gtrace (snd (grun_session false code fuel'' acts (ginit_state u)))) =
-    hseq (trace (snd (run_session code fuel acts (init_state u)))).
+    vseq (gtrace (snd (grun_session false code fuel'' acts (ginit_state u)))) =
+    vseq (trace (snd (run_session code fuel acts (init_state u)))).
 Proof.
   intros H. unfold in_fragment in H.
   destruct (frun_session code fuel acts (init_state u)) as [[os s']|] eqn:E; [|discriminate].
@@ -1395,7 +1485,7 @@ Proof.
   rewrite (frun_is_run code _ _ _ _ _ E).
   destruct (sim_session code _ _ _ _ _ _ (Rel_init code u) E H) as (f' & g' & G & Hobs).
   exists f'. intros f'' Hle. rewrite (grun_mono code _ _ _ _ _ G H f'' Hle). cbn [fst snd].
-  split; [reflexivity|]. rewrite !hseq_obs. rewrite Hobs. reflexivity.
+  split; [reflexivity|]. rewrite !vseq_obs. rewrite Hobs. reflexivity.
 Qed.
 
 (* ... in the vocabulary of C20Proofs: sessions given by handler bodies and top-level actions *)
@@ -1404,7 +1494,8 @@ Theorem agree_partial bodies acts fuel :
   exists fuel', forall fuel'', fuel' <= fuel'' -> glib_obs bodies acts fuel'' = main_obs bodies acts fuel.
 Proof.
   intros H. destruct (agree_partial_gen _ _ _ _ H) as (f' & Hf). exists f'. intros f'' Hle.
-  destruct (Hf f'' Hle) as [A B]. unfold glib_obs, glib_obs_gen, main_obs.
+  destruct (Hf f'' Hle) as [A B]. apply (f_equal (filter is_hm)) in B.
+  rewrite <- !hseq_vseq in B. unfold glib_obs, glib_obs_gen, main_obs.
   assert (K : forall (p : list outcome * gstate counters) (q : list outcome * lstate counters),
              fst p = fst q -> hseq (gtrace (snd p)) = hseq (trace (snd q)) ->
              (let '(os, st) := p in (os, hseq (gtrace st))) = (let '(os, st) := q in (os, hseq (trace st))))
@@ -1424,4 +1515,167 @@ Lemma example_fragment :
   in_fragment (handler_prog w_b_bodies) 200 (map top_of w_b_acts) [] = false /\
   in_fragment (handler_prog w_c_bodies) 200 (map top_of w_c_acts) [] = false /\
   in_fragment (handler_prog w_d_bodies) 200 (map top_of w_d_acts) [] = false.
+Proof. vm_compute. repeat split. Qed.
+
+(* ------------------------------------------------------------ applications (ScreenSem on either loop) *)
+Lemma gapp_mono specs : forall acts f g os g', gapp_session specs f acts g = (os, g') -> no_fuel os = true ->
+  forall f', f <= f' -> gapp_session specs f' acts g = (os, g').
+Proof.
+  induction acts as [|a r IH]; intros f g os g' H Hn f' Hle; [exact H|].
+  cbn [gapp_session] in *.
+  assert (K : forall gc, (let '(o, s1) := gexec false (screen_code specs) f gc (gemit ETop g) in
+                          match o with
+                          | OBlocked | OFuel | OThrow XSysExit => ([o], s1)
+                          | _ => let '(os, s2) := gapp_session specs f r s1 in (o :: os, s2)
+                          end) = (os, g') ->
+                         (let '(o, s1) := gexec false (screen_code specs) f' gc (gemit ETop g) in
+                          match o with
+                          | OBlocked | OFuel | OThrow XSysExit => ([o], s1)
+                          | _ => let '(os, s2) := gapp_session specs f' r s1 in (o :: os, s2)
+                          end) = (os, g')).
+  { intros gc H0. destruct (gexec false (screen_code specs) f gc (gemit ETop g)) as [o s1] eqn:E.
+    assert (Ho : o <> OFuel) by (intros ->; inversion H0; subst; discriminate).
+    rewrite (gexec_mono _ _ _ _ _ _ _ E Ho f' Hle).
+    destruct o as [|[]| |]; try exact H0; try congruence.
+    all: destruct (gapp_session specs f r s1) as [os0 s2] eqn:Er; inversion H0; subst os g'; cbn in Hn;
+      rewrite (IH _ _ _ _ Er Hn f' Hle); reflexivity. }
+  destruct a as [l|].
+  - apply K. exact H.
+  - destruct (st_stack (gust g)) as [|d st]; [destruct (st_run_empty (gust g))|]; try (apply K; exact H).
+    inversion H; subst. cbn in Hn.
+    destruct (gapp_session specs f r (gemit ETop g)) as [os0 s2] eqn:Er. inversion H1; subst. cbn in Hn.
+    rewrite (IH _ _ _ _ Er Hn f' Hle). reflexivity.
+Qed.
+
+Lemma fapp_is_app specs : forall acts f s os s', fapp_session specs f acts s = Some (os, s') -> app_session specs f acts s = (os, s').
+Proof.
+  induction acts as [|a r IH]; intros f s os s' H; [inversion H; reflexivity|].
+  cbn [fapp_session app_session] in *.
+  assert (K : forall c, obind (fexec (screen_code specs) f c (emit ETop s))
+                (fun '(o, s1) => match o with
+                                 | OBlocked | OFuel => Some ([o], s1)
+                                 | ONormal => obind (fapp_session specs f r s1) (fun '(os, s2) => Some (o :: os, s2))
+                                 | OThrow _ => None end) = Some (os, s') ->
+              (let '(o, s1) := exec (screen_code specs) f c (emit ETop s) in
+               match o with
+               | OBlocked | OFuel | OThrow XSysExit => ([o], s1)
+               | _ => let '(os, s2) := app_session specs f r s1 in (o :: os, s2) end) = (os, s')).
+  { intros c H0. destruct (fexec (screen_code specs) f c (emit ETop s)) as [[o s1]|] eqn:E; cbn [obind] in H0; [|discriminate].
+    rewrite (fexec_is_exec _ _ _ _ _ _ E). destruct o as [|e| |]; try discriminate; try (inversion H0; reflexivity).
+    destruct (fapp_session specs f r s1) as [[os0 s2]|] eqn:Er; cbn [obind] in H0; [|discriminate].
+    inversion H0; subst. rewrite (IH _ _ _ _ Er). reflexivity. }
+  destruct a as [l|].
+  - apply K. exact H.
+  - destruct (st_stack (ust s)) as [|d st]; [destruct (st_run_empty (ust s))|]; try (apply K; exact H). discriminate.
+Qed.
+
+Lemma sim_app_session specs : forall acts f s g os s', Rel s g -> fapp_session specs f acts s = Some (os, s') -> no_fuel os = true ->
+  exists f' g', gapp_session specs f' acts g = (os, g') /\ obs (trace s') = obs (gtrace g').
+Proof.
+  induction acts as [|a r IH]; intros f s g os s' R H Hn.
+  - inversion H; subst. exists 0, g. split; [reflexivity|apply (r_obs _ _ R)].
+  - cbn [fapp_session] in H.
+    assert (Rt : Rel (emit ETop s) (gemit ETop g)) by (apply Rel_emit2; exact R).
+    assert (K : forall c gc,
+      (forall o s1, fexec (screen_code specs) f c (emit ETop s) = Some (o, s1) -> o <> OFuel ->
+         exists f1 g1, gexec false (screen_code specs) f1 gc (gemit ETop g) = (o, g1) /\ TopPost o s1 g1) ->
+      obind (fexec (screen_code specs) f c (emit ETop s))
+            (fun '(o, s1) => match o with
+                             | OBlocked | OFuel => Some ([o], s1)
+                             | ONormal => obind (fapp_session specs f r s1) (fun '(os, s2) => Some (o :: os, s2))
+                             | OThrow _ => None end) = Some (os, s') ->
+      exists f' g', (let '(o, s1) := gexec false (screen_code specs) f' gc (gemit ETop g) in
+                     match o with
+                     | OBlocked | OFuel | OThrow XSysExit => ([o], s1)
+                     | _ => let '(os, s2) := gapp_session specs f' r s1 in (o :: os, s2) end) = (os, g') /\
+                    obs (trace s') = obs (gtrace g')).
+    { intros c gc HG H0.
+      destruct (fexec (screen_code specs) f c (emit ETop s)) as [[o s1]|] eqn:E; cbn [obind] in H0; [|discriminate].
+      assert (Ho : o <> OFuel) by (intros ->; inversion H0; subst; discriminate).
+      destruct (HG _ _ eq_refl Ho) as (f1 & g1 & G1 & P1).
+      destruct o as [|e| |]; try discriminate.
+      + destruct (fapp_session specs f r s1) as [[os0 s2]|] eqn:Er; cbn [obind] in H0; [|discriminate].
+        inversion H0; subst os s'. cbn in Hn.
+        destruct (IH _ _ _ _ _ P1 Er Hn) as (f2 & g2 & G2 & Hobs).
+        exists (Nat.max f1 f2), g2. split; [|exact Hobs].
+        rewrite (gexec_mono _ _ _ _ _ _ _ G1 ltac:(discriminate) (Nat.max f1 f2) ltac:(lia)).
+        rewrite (gapp_mono _ _ _ _ _ _ G2 Hn (Nat.max f1 f2) ltac:(lia)). reflexivity.
+      + inversion H0; subst os s'. exists f1, g1. split; [|exact P1]. rewrite G1. reflexivity.
+      + congruence. }
+    cbn [gapp_session].
+    destruct a as [l|].
+    + apply (K (CProg (run_cmds specs 0 0 l)) (GProg (run_cmds specs 0 0 l))); [|exact H].
+      intros o s1 E Ho. destruct (proj1 (sim_all (screen_code specs) f) _ _ _ _ _ Rt E Ho) as (f1 & g1 & G1 & P1).
+      exists f1, g1. split; [exact G1|]. destruct o as [|e| |]; cbn in *; tauto.
+    + rewrite <- (r_ust _ _ R).
+      destruct (st_stack (ust s)) as [|d st]; [destruct (st_run_empty (ust s))|].
+      * apply (K CRun GRun); [|exact H]. intros o s1 E Ho. apply (sim_run _ _ _ _ _ _ Rt E Ho).
+      * discriminate.
+      * apply (K CRun GRun); [|exact H]. intros o s1 E Ho. apply (sim_run _ _ _ _ _ _ Rt E Ho).
+Qed.
+
+Lemma ginit_run (code : nat -> signal -> nat -> prog sstate) u :
+  exists g1, gexec false code 20 (GProg app_initialize) (ginit_state u) = (ONormal, g1).
+Proof. eexists. reflexivity. Qed.
+
+(* applications: for every table of screens, typed lines, quit dialog, configuration, fuel and application actions
+   whose run on the MainLoop model stays in the fragment, the same application on the GLibEventLoop model ends
+   every top-level call in the same way and shows the same user-visible sequence up to the quit *)
+Theorem applications_agree_partial specs specl typed quit run_empty fuel acts :
+  in_app_fragment specs specl typed quit run_empty fuel acts = true ->
+  exists fuel', forall fuel'', fuel' <= fuel'' ->
+    fst (gapp_run_all specs specl typed quit run_empty fuel'' acts) = fst (app_run_all specs specl typed quit run_empty fuel acts) /\
+    vseq (gtrace (snd (gapp_run_all specs specl typed quit run_empty fuel'' acts))) =
+    vseq (trace (snd (app_run_all specs specl typed quit run_empty fuel acts))).
+Proof.
+  intros H. unfold in_app_fragment in H. set (u := sstate0 specl typed quit run_empty) in *.
+  destruct (fexec (screen_code specs) 20 (CProg app_initialize) (init_state u)) as [[[|e| |] s1]|] eqn:E0; try discriminate.
+  destruct (fapp_session specs fuel acts s1) as [[os s']|] eqn:E; [|discriminate].
+  change (no_fuel os = true) in H.
+  destruct (proj1 (sim_all (screen_code specs) 20) _ _ _ _ _ (Rel_init (screen_code specs) u) E0 ltac:(discriminate))
+    as (f0 & g1 & G0 & [R1 _]).
+  destruct (ginit_run (screen_code specs) u) as (g1' & G20).
+  assert (g1' = g1).
+  { pose proof (gexec_mono _ _ _ _ _ _ _ G0 ltac:(discriminate) (Nat.max f0 20) ltac:(lia)) as A.
+    pose proof (gexec_mono _ _ _ _ _ _ _ G20 ltac:(discriminate) (Nat.max f0 20) ltac:(lia)) as B. congruence. }
+  subst g1'.
+  destruct (sim_app_session specs _ _ _ _ _ _ R1 E H) as (f' & g' & G & Hobs).
+  exists f'. intros f'' Hle. unfold gapp_run_all, app_run_all. fold u.
+  rewrite (fexec_is_exec _ _ _ _ _ _ E0), G20.
+  rewrite (fapp_is_app _ _ _ _ _ _ E), (gapp_mono _ _ _ _ _ _ G H f'' Hle). cbn [fst snd].
+  split; [reflexivity|]. rewrite !vseq_obs, Hobs. reflexivity.
+Qed.
+
+(* ------------------------------------------------------------ non-vacuity at application level
+   A real application session inside the fragment: screen 0 pushes screen 1 MODALLY from its first refresh();
+   the user types "1" (delivered to the modal screen 1, whose input() answers CLOSE: the modal loop is closed and
+   push_screen_modal returns), screen 0 is then drawn and asks; the user types "3" (delivered to screen 0, which
+   closes: the stack is empty, the application quits).  Two screens shown, a modal push, two typed lines. *)
+Definition ex_specl : list screen_spec :=
+  [ {| sc_setup := []; sc_refresh := [SIfCount 1 [SPushModal 1 0] []]; sc_show := []; sc_closed := [];
+       sc_input := [([49%N], ([SPush 1 0], RProcessed)); ([51%N], ([], RClose))]; sc_input_default := ([], None);
+       sc_prompt_none := false; sc_input_required := true; sc_no_separator := false; sc_skip_check := false;
+       sc_pages := 0; sc_answer0 := AnsNoAttr |};
+    {| sc_setup := []; sc_refresh := []; sc_show := []; sc_closed := [];
+       sc_input := [([50%N], ([], RProcessed))]; sc_input_default := ([], Some RClose);
+       sc_prompt_none := false; sc_input_required := true; sc_no_separator := false; sc_skip_check := false;
+       sc_pages := 0; sc_answer0 := AnsNoAttr |} ].
+Definition ex_specs (n : nat) : screen_spec := nth n ex_specl default_spec.
+Definition ex_typed : list (option str) := [Some [49%N]; Some [51%N]].
+Definition ex_acts : list saction := [SACmds [SSchedule 0 0]; SARun].
+(* shown / input delivered / closed / modal return, in order *)
+Definition key_events (t : list event) : list event :=
+  filter (fun e => match e with
+                   | EUser tag _ _ => existsb (Nat.eqb tag) [T_SHOW; T_INPUT; T_MODAL_RETURN; T_CLOSED]
+                   | _ => false end) (useq t).
+Definition ex_expected : list event :=
+  [EUser T_SHOW [1; 1] []; EUser T_INPUT [1; 0] [49%N]; EUser T_CLOSED [1; 1] []; EUser T_MODAL_RETURN [1; 1] [];
+   EUser T_SHOW [0; 0] []; EUser T_INPUT [0; 0] [51%N]; EUser T_CLOSED [0; 0] []].
+
+Lemma example_application :
+  in_app_fragment ex_specs ex_specl ex_typed None false 300 ex_acts = true /\
+  (let '(os, st) := app_run_all ex_specs ex_specl ex_typed None false 300 ex_acts in (os, key_events (trace st)))
+    = ([ONormal; ONormal], ex_expected) /\
+  (let '(os, st) := gapp_run_all ex_specs ex_specl ex_typed None false 600 ex_acts in (os, key_events (gtrace st)))
+    = ([ONormal; ONormal], ex_expected).
 Proof. vm_compute. repeat split. Qed.
